@@ -229,6 +229,12 @@ BOUNDED = [
      'the 15 helper functions of array_utils/fft_helper/common against the executable reading of their contracts: all data/output lengths <= 12 (zip: <= 8), chunk sizes <= 5, scratch <= 3 (exhaustive in that box); up to 12 chunks'),
     ('chunks', ['C07', 'C12'], 'chunks:96', 'chunks:700',
      'C07 on real transforms (21 butterflies, Dft, every FftPlannerScalar<f64> length below the limit): a k-chunk call (k <= 6) equals k single-chunk calls bit for bit on the three explicit-scratch entry points'),
+    ('simd_sse', ['C01', 'C03', 'C04', 'C07', 'C09', 'C15'], 'simd_sse:300', 'simd_sse:2100',
+     'SIMD kernels are outside both verifiers: FftPlannerSse<f32|f64> on this CPU, every length below the limit: plans without panic, len/direction/scratch<=12n+64; through the three explicit-scratch entry points with canary-guarded buffers: 1..5 chunks and ill-shaped variants, canaries and immutable input intact, ill-shaped panics, every chunk equals the portable (scalar planner) transform of that chunk up to rounding (2e-4 f32 / 1e-11 f64 relative L2)', 'avx,sse'),
+    ('simd_avx', ['C01', 'C03', 'C04', 'C07', 'C09', 'C15'], 'simd_avx:640', 'simd_avx:2100',
+     'same for FftPlannerAvx<f32|f64> (this CPU: avx2+fma)', 'avx,sse'),
+    ('simd_history', ['C06', 'C10'], 'simd_history:1', 'simd_history:1000',
+     'history on one AVX / SSE planner: every ordered pair of requests over 11 (thorough 18) related lengths x 2 directions: len, direction, result equals the portable transform up to rounding', 'avx,sse'),
     ('sqrt_limit', ['C04'], 'sqrt_limit', 'sqrt_limit', 'A-sqrt: ((m*m) as f32).sqrt() as usize >= m for every m < 2^24 on this CPU (exhaustive)'),
     ('MixedRadix', ['C08', 'C09', 'C12'], 'MixedRadix', 'MixedRadix', 'scratch-content independence (C08 iii) and panic-freedom of the real wrapper over contract-checking stubs; bound: inner lengths <= 4, inner scratch needs in {0,1,len-1,len,len+1,2len+3,3len^2+1}'),
     ('MixedRadixSmall', ['C08', 'C09', 'C12'], 'MixedRadixSmall', 'MixedRadixSmall', 'same, MixedRadixSmall'),
@@ -247,15 +253,15 @@ def run_bounded(prop, tier):
         return []
     import replay_engine
     t0 = time.time()
-    exe, err = replay_engine.build(REPO, BUILD)
-    res = []
-    if exe is None:
-        for b in items:
-            res.append({'name': 'bn:' + b[0], 'status': 'inconclusive', 'reason': 'replay build failed: ' + err[-400:], 'stands_in_for': b[4]})
-        return res
+    exes = {}
+    for feats in sorted(set((b[5] if len(b) > 5 else '') for b in items)):
+        exes[feats] = replay_engine.build(REPO, BUILD, feats)
 
     def one(b):
         arg = b[2] if tier == 'quick' else b[3]
+        exe, err = exes[b[5] if len(b) > 5 else '']
+        if exe is None:
+            return {'name': 'bn:' + b[0], 'status': 'inconclusive', 'reason': 'replay build failed: ' + err[-400:], 'stands_in_for': b[4]}
         t1 = time.time()
         try:
             p = subprocess.run([exe, arg], capture_output=True, text=True, timeout=3000)
